@@ -447,13 +447,10 @@ def rule_frame_and_typestate(ctx, rules=('R06.f', 'R06.s', 'R06.r', 'R06.c')):
                 for d, ip, r in ws:
                     if ip is None:   # the call raised
                         e = r
-                        if e.exc == 'AssertionError':
-                            # a documented refusal (rank>1) is raised whatever space the arrays are in; one that appears
-                            # only for some combinations of spaces is judged after the loop
-                            asserts.append((tag, e))
-                            continue
-                        problems['R06.r'].append(('%s:%s' % (e.exc, (e.msg or '')[:60]),
-                                                  'with %s the call raises %s (%s) at %s' % (tag, e.exc, e.msg, e.loc)))
+                        # a refusal that is raised whatever space the arrays are in (rank>1, an input validation on a data
+                        # condition) is not about the spaces; one that appears only for some combinations of spaces is
+                        # judged after the loop
+                        asserts.append((tag, e))
                         continue
                     n += 1
                     try:
@@ -508,11 +505,15 @@ def rule_frame_and_typestate(ctx, rules=('R06.f', 'R06.s', 'R06.r', 'R06.c')):
                             base = v.base if isinstance(v, View) else v
                             if isinstance(base, Arr) and not base.fresh:
                                 problems['R06.c'].append(('alias', 'table value is a view of %s' % base.origin))
-            if asserts and len({t_ for t_, _ in asserts}) < nsp:
-                t_, e = asserts[0]
-                problems['R06.r'].append(('AssertionError:space-dependent',
-                                          'with %s the call raises AssertionError (%s) at %s although it returns for other '
-                                          'combinations of spaces' % (t_, e.msg, e.loc)))
+            by_site = {}
+            for t_, e in asserts:
+                by_site.setdefault((e.exc, e.loc), []).append((t_, e))
+            for (exc_, loc_), lst in sorted(by_site.items()):
+                if len({t_ for t_, _ in lst}) < nsp:
+                    t_, e = lst[0]
+                    problems['R06.r'].append(('%s:space-dependent' % exc_,
+                                              'with %s the call raises %s (%s) at %s although it does not for other combinations '
+                                              'of spaces' % (t_, exc_, e.msg, e.loc)))
             for rid, probs in problems.items():
                 und = [p for p in probs if p[0] == 'UNDECIDED']
                 real = [p for p in probs if p[0] != 'UNDECIDED']
